@@ -230,7 +230,10 @@ class Profile:
                 else:
                     try:
                         if isinstance(self.__dict__[n], bool):
-                            self.__dict__[n] = not (v in ["False", "0"])
+                            s = str(v).strip().lower()
+                            if s not in ["true", "1", "false", "0"]:
+                                raise ValueError(v)
+                            self.__dict__[n] = s in ["true", "1"]
                         else:
                             typ = type(self.__dict__[n])
                             self.__dict__[n] = typ(v)
